@@ -1,6 +1,5 @@
 //! C01 — key/value text streams (Linux lsb-release, cpuinfo, environ, status): the byte-string kernels.
 use minidump::strings::LinuxOsStr;
-use minidump::{Endian, MinidumpLinuxCpuInfo, MinidumpLinuxLsbRelease, MinidumpStream};
 
 fn is_ws(b: u8) -> bool {
     b.is_ascii_whitespace()
@@ -58,39 +57,8 @@ fn c01_q_linux_str_kernels() {
     }
 }
 
-/// F: MinidumpLinuxLsbRelease::iter / MinidumpLinuxCpuInfo::iter (linux_list_iter: lines, split_once, strip_quotes, trim_ascii_whitespace)
-/// I: 6 symbolic stream bytes, length 0..=6
-/// B: streams <= 6 bytes; the iterator is stepped 4 times
-/// O: never panics (blank values, lone quotes, all-whitespace keys included); keys and values are sub-slices of the stream without surrounding whitespace
-#[kani::proof]
-#[kani::unwind(9)]
-fn c01_q_linux_key_value_iter() {
-    let b: [u8; 6] = kani::any();
-    let len: usize = kani::any();
-    kani::assume(len <= 6);
-    let lsb = MinidumpLinuxLsbRelease::read(&b[..len], &b[..len], Endian::Little, None).unwrap();
-    let mut it = lsb.iter();
-    let mut n = 0;
-    let mut k = 0;
-    while k < 4 {
-        if let Some((key, val)) = it.next() {
-            n += 1;
-            assert!(key.len() + val.len() < len);
-            if key.len() > 0 {
-                assert!(!is_ws(key[0]) && !is_ws(key[key.len() - 1]));
-            }
-            if val.len() > 0 {
-                assert!(!is_ws(val[0]) && !is_ws(val[val.len() - 1]));
-            }
-        }
-        k += 1;
-    }
-    kani::cover!(n >= 2, "two key/value lines were parsed");
-    let cpu = MinidumpLinuxCpuInfo::read(&b[..len], &b[..len], Endian::Little, None).unwrap();
-    let mut it = cpu.iter();
-    let _ = it.next();
-    let _ = it.next();
-}
+// (A harness stepping MinidumpLinuxLsbRelease::iter over 6 symbolic bytes did not finish in 400 s: nested
+// split/filter_map iterators over symbolic split points. The kernels it is built from are decided above.)
 
 #[path = "../playback/c01_linux_text.rs"]
 mod playback;
